@@ -15,7 +15,12 @@ import codecs, io, itertools, json, os, tempfile
 from harness.core import Prop, some
 
 CODECS = {'absent': None, 'utf8': 'utf8', 'latin1': 'ISO-8859-1', 'ascii': 'ascii'}
-OPAQUE = ['utf-16-le', 'utf-32-be', 'cp1252', 'shift_jis', 'euc_jp']   # not utf-16/utf-32/utf-8-sig: CPython's incremental and one-shot decoders disagree there (BOM-less input, truncated BOM)
+OPAQUE = ['utf-16-le', 'utf-32-be', 'cp1252', 'shift_jis', 'euc_jp']
+#: stdlib codecs whose INCREMENTAL decoder is known not to agree with decoding the joined bytes in one go (audit/C16 V2-V4): BOM-less
+#: utf-16 / utf-32 (refused, one-shot assumes native order), utf-8-sig (a truncated BOM vanishes), punycode (every chunk decoded as a whole
+#: string), undefined.  as_text() does not use an incremental decoder (it joins, then decodes once) and is checked for them like for any codec;
+#: iter_text() is not observed for them.
+UNLAWFUL = ['utf-16', 'utf-32', 'utf-8-sig', 'punycode', 'undefined']   # not utf-16/utf-32/utf-8-sig: CPython's incremental and one-shot decoders disagree there (BOM-less input, truncated BOM)
 TOKEN = 'abcxyz019-+._!#$&^`|~{}'
 LINEBREAKS = '\n\r\x0b\x0c\x1c\x1d\x1e\x85\u2028\u2029'
 EXC = ('ValueError', 'OSError', 'UnicodeDecodeError')
@@ -79,7 +84,8 @@ class C16(Prop):
     budgets = {'quick': 20000, 'thorough': 300000}
     time_limit = {'quick': 60, 'thorough': 600}
     rule = ('seven scenario kinds (eq/text/json/decode/stream/ctype/copy), see harness/props/c16.py. decode: valid and corrupted UTF-8 '
-            '(overlong, surrogates, > U+10FFFF, truncated), Latin-1, ASCII and six opaque codecs, cut at random positions incl. inside '
+            '(overlong, surrogates, > U+10FFFF, truncated), Latin-1, ASCII, five opaque codecs with lawful incremental decoders and the stdlib codecs whose '
+            'incremental decoders are NOT lawful (utf-16 / utf-32 without BOM, utf-8-sig with a truncated BOM, punycode, undefined: as_text only), cut at random positions incl. inside '
             'sequences and with empty chunks - and every decode observation is repeated on the same Content object after an abandoned iter_text (0..n pieces '
             'pulled, generator dropped) and after a complete/failed decode of an earlier, shorter source: the text must be a function of the bytes alone '
             '(a dependence is reported as a trace outside the model\'s vocabulary); stream: BytesIO and real files, 45 % behind a short-read plan (raw-stream '
@@ -92,7 +98,7 @@ class C16(Prop):
             'modelled codecs also in alias spellings (UTF-8, utf_8, Latin-1, us-ascii ...). thorough adds every '
             'cutting of five byte strings of <= 9 bytes and every stream configuration with <= 6 bytes. non-trivial = decode with a cut inside a '
             'multi-byte sequence or an error; stream with >= 2 chunks or a seek; ctype with a parameter whose value needs quoting; copy with a set '
-            'after a copy; text with a non-ASCII character; eq with different chunkings; distinct = distinct input S-expression')
+            'after a copy (after every copy the harness also changes the source\'s ContentType object in place: the copies must keep theirs); text with a non-ASCII character; eq with different chunkings; distinct = distinct input S-expression')
     assumptions = ['codecs incremental decoders other than ISO-8859-1/ASCII/UTF-8 (utf-16-le, utf-32-be, cp1252, shift_jis, euc_jp) are opaque: '
                    'their whole-string result is an oracle input and the decoder law is assumed, only checked differentially',
                    'json.dumps/json.loads are an assumed inverse pair (json_content is checked to be utf8(json.dumps(data)) with type application/json)',
@@ -103,6 +109,14 @@ class C16(Prop):
                    'the model has no object state for a Content (decoding is a pure function of the source bytes): independence of earlier uses of '
                    'the same object is checked on the real objects (reuse observations) and, for the source text, by the tie C16_src_iter_text '
                    '(a fresh incremental decoder per call)',
+                   'outside the stated domain, not modelled (audit/C16 borderline list): texts with lone surrogates (text_content accepts them, '
+                   'iter_bytes then raises UnicodeEncodeError; the model\'s texts are scalar values); sources yielding mutable bytearray chunks '
+                   '(_copy_content keeps the chunk objects); content_from_stream without a seek offset iterated twice (nothing rewinds the stream: the '
+                   'model reproduces the empty second consumption, the spec demands the bytes of the first consumption only); Content.__eq__ with a '
+                   'non-Content operand (AttributeError) and ContentType.__eq__ for subclass instances (type(other) is not ContentType)',
+                   'iter_text(): for codecs other than the three modelled ones the law of the incremental decoder is ASSUMED; it is known false for the '
+                   'stdlib codecs utf-16 / utf-32 (BOM-less input), utf-8-sig (truncated BOM), punycode and undefined - for those iter_text is not '
+                   'observed; as_text() (join, then one decode) is checked against one-shot decoding for every codec including these',
                    'translator tie: harness/pycontent2lean.py reads Content._iter_text, content_from_reader, _iter_chunks, ContentType.__repr__/_quote and '
                    'the charset work-around of _make_content_type as data; TTV.ContentSkel gives the data its meaning (trusted: that the interpreter '
                    'reads the recognised statement forms as Python does); unrecognised statements become .unknown']
@@ -113,7 +127,7 @@ class C16(Prop):
                 'RFC 3629 reference decoder that accepts exactly the encodings of scalar-value texts; the encoder proved equal to core Lean\'s '
                 'String.utf8EncodeChar); text_content round-trips under every chunking; _iter_chunks yields non-empty chunks <= chunk_size that concatenate '
                 'to the bytes from the clamped seek position to EOF, lazily unless buffer_now; Content equality = type and bytes; ContentType render/parse '
-                'round trip for lower-case token names and arbitrary values outside three recorded finding classes, names in any letter case coming back lower-cased '
+                'round trip for lower-case token type/subtype, any token as parameter name and arbitrary values outside four recorded finding classes (one of them: names that are not lower-case tokens without * \' %), names in any letter case coming back lower-cased '
                 'and every answer independent of what was parsed before (no state in the model; sequences with case variants and scribbled-on results in the check); '
                 '_copy_content copies are snapshots '
                 'evaluated once. The hand-written model is tied to the code (a) by theorems C16_src_* proving that iterText, the buffer_now step, the chunk '
@@ -121,7 +135,7 @@ class C16(Prop):
                 'every run, (b) by a differential check on instrumented streams/files (incl. short-reading raw streams), real codecs, re-used Content objects '
                 'and the real email-based parser.',
         'note': 'partial: the content-type round trip (and hence holds_model) is proved outside the finding classes charsetComma, valueCRLF, '
-                'valueEncodedWord (the last one found by this check; inside it the model is not faithful). trusted: Lean kernel, the model '
+                'valueEncodedWord, nameNotLowerToken (inside valueEncodedWord and for names with * \' % the model is not faithful: soft correspondence). trusted: Lean kernel, the model '
                 'TTV/Model/Content.lean, the harness; codecs other than ISO-8859-1/ASCII/UTF-8 are opaque (law assumed, differential only); json, the '
                 'read/seek contract of BytesIO/files and the email header parser are modelled, not verified',
         'technique': 'Lean 4 proofs (structural/functional induction, omega) over an executable model; executable spec shared with a differential correspondence check',
@@ -180,24 +194,36 @@ class C16(Prop):
         params = {} if enc is None else {'charset': enc}
         ct = ContentType('text' if is_text else 'application', 'plain', params)
 
+        lawful = cs != 'opaque' or name.lower().replace('_', '-') not in UNLAWFUL + ['utf16', 'u32']
+        decode_errors = (UnicodeError,)      # (UnicodeDecodeError and the plain UnicodeError some codecs raise: both "cannot be decoded")
+
         def observe(c):
-            err = None
+            """(as_text, its error, iter_text pieces, its error)"""
+            at = aerr = pieces = err = None
             try:
-                pieces = list(c.iter_text())
                 at = c.as_text()
-                if at != ''.join(pieces):
-                    return 'as-text-differs-from-iter-text', None
-                if cs == 'opaque':
-                    pieces = [at]
-                pieces = some([cps(p) for p in pieces])
-            except UnicodeDecodeError:
-                pieces, err = None, 'UnicodeDecodeError'
+            except decode_errors:
+                aerr = 'UnicodeDecodeError'
             except ValueError:
-                pieces, err = None, 'ValueError'
-            return pieces, err
-        pieces, err = observe(Content(ct, lambda: chunks))
-        if err is None and pieces == 'as-text-differs-from-iter-text':
-            return [pieces]
+                aerr = 'ValueError'
+            if lawful:
+                try:
+                    ps = list(c.iter_text())
+                    if at is not None and at != ''.join(ps):
+                        return 'as-text-differs-from-iter-text', None, None, None
+                    pieces = [''.join(ps)] if cs == 'opaque' else ps
+                except decode_errors:
+                    err = 'UnicodeDecodeError'
+                except ValueError:
+                    err = 'ValueError'
+            else:
+                # a codec whose incremental decoder is known not to agree with one-shot decoding (UNLAWFUL): iter_text is not
+                # observed, the trace carries what as_text gave in its place
+                pieces, err = (None if at is None else [at]), aerr
+            return (None if at is None else cps(at)), aerr, (None if pieces is None else [cps(p) for p in pieces]), err
+        first = observe(Content(ct, lambda: chunks))
+        if first[0] == 'as-text-differs-from-iter-text':
+            return [first[0]]
         # the text of a content is a function of its bytes: whatever was done with the same Content object before (an
         # abandoned iter_text, an earlier complete or failed decode, a source that has grown since) must not change it
         for j in range(len(chunks) + 1):
@@ -214,15 +240,16 @@ class C16(Prop):
                         cur[0] = chunks[:j]
                         c.as_text()
                         cur[0] = chunks
-                except (UnicodeDecodeError, ValueError):
+                except (UnicodeError, ValueError):
                     cur[0] = chunks
-                if observe(c) != (pieces, err):
+                if observe(c) != first:
                     return ['decode-depends-on-earlier-use', use, j]
         try:
             whole = some(cps(b''.join(chunks).decode(enc or 'ISO-8859-1')))
-        except UnicodeDecodeError:
+        except decode_errors:
             whole = None
-        return ['decode', pieces, some(err), whole]
+        at, aerr, pieces, err = first
+        return ['decode', some(at), some(aerr), some(pieces), some(err), whole]
 
     def impl_stream(self, is_file, data0, data1, pos0, size, seek, buffer_now, iters, caps):
         import testtools.content as tc
@@ -297,6 +324,8 @@ class C16(Prop):
             parsed = ['ok', cps(r.type), cps(r.subtype), [[cps(k), cps(v)] for k, v in sorted(r.parameters.items())]]
         except ValueError:
             parsed = ['raised', 'ValueError']
+        except IndexError:          # (the email parser crashes on an RFC 2231 name with a degenerate value: k*="'")
+            parsed = ['raised', 'IndexError']
         return ['ctype', cps(rendered), parsed]
 
     _real_code = None
@@ -343,16 +372,28 @@ class C16(Prop):
         def src():
             evals[0] += 1
             return cell        # the very same mutable list every time
-        orig = Content(self._ct(2), src)
-        copies, obs = [], []
+        from testtools.content_type import ContentType
+        orig = Content(ContentType('text', 'x-log', {'charset': 'latin-1', 'n': '0'}), src)
+        copies, types, obs = [], [], []
+
+        def type_of(c):
+            t = c.content_type
+            return (t.type, t.subtype, sorted(t.parameters.items()))
         for op in ops:
             before = evals[0]
+            if any(type_of(c) != t for c, t in zip(copies, types)):
+                return ['copy-content-type-follows-the-source']
             if op == 'copy':
+                types.append(type_of(orig))
                 cp = _copy_content(orig)
-                if cp.content_type != orig.content_type:
+                if type_of(cp) != types[-1]:
                     return ['copy-changed-content-type']
                 copies.append(cp)
                 obs.append([None, evals[0] - before])
+                # later changes to the source include its content type: scribble on it (in place - the copy must not share it)
+                orig.content_type.parameters['n'] = str(len(copies))
+                orig.content_type.parameters['charset'] = 'utf8' if len(copies) % 2 else 'latin-1'
+                orig.content_type.subtype = 'x-log-%d' % len(copies)
             elif op == 'readOrig':
                 r = blist(orig.iter_bytes())
                 obs.append([some(r), evals[0] - before])
@@ -366,6 +407,8 @@ class C16(Prop):
                     obs.append([some(r), evals[0] - before])
                 else:
                     obs.append([None, 0])
+        if any(type_of(c) != t for c, t in zip(copies, types)):
+            return ['copy-content-type-follows-the-source']
         return ['copy', obs]
 
     # ------------------------------------------------------------------ generators
@@ -403,12 +446,18 @@ class C16(Prop):
         cs = rng.choice(['utf8'] * 6 + ['absent', 'latin1', 'ascii'] + ['opaque'] * 2)
         name = 'x'
         if cs == 'opaque':
-            name = rng.choice(OPAQUE)
+            name = rng.choice(OPAQUE + UNLAWFUL + ['UTF-16', 'utf16', 'u32'] if rng.random() < 0.5 else OPAQUE)
             s = self.g_text(rng)
             try:
-                b = list(s.encode(name))
-            except UnicodeEncodeError:
+                # (BOM-less bytes for utf-16 / utf-32: that is where their incremental decoders differ from one-shot decoding)
+                b = list(s.encode({'utf-16': 'utf-16-le', 'UTF-16': 'utf-16-le', 'utf16': 'utf-16-be', 'utf-32': 'utf-32-le', 'u32': 'utf-32-le'}.get(name, name)
+                                  if rng.random() < 0.7 else name))
+            except (UnicodeError, LookupError):
                 b = self.g_bytes(rng)
+            if name == 'utf-8-sig' and rng.random() < 0.4:
+                b = [0xEF, 0xBB, 0xBF][:rng.randint(1, 3)] + (b if rng.random() < 0.3 else [])
+            if name == 'undefined' and rng.random() < 0.5:
+                b = []
             if rng.random() < 0.3:
                 b = self.mutate(rng, b)
         elif cs == 'utf8':
@@ -430,7 +479,7 @@ class C16(Prop):
         if cs == 'opaque':
             try:
                 whole = some(cps(bytes(b).decode(enc)))
-            except UnicodeDecodeError:
+            except UnicodeError:
                 whole = None
         return ['decode', rng.random() < 0.95, cs, self.cut(rng, b), whole, name]
 
@@ -481,6 +530,10 @@ class C16(Prop):
         params = {}
         for _ in range(rng.choice([0, 1, 1, 2, 2, 3, 4])):
             name = rng.choice([self.g_token(rng)] * 4 + ['charset', 'k', 'k-', 'k0', 'ka'])
+            if rng.random() < 0.12:      # names outside the lower-case tokens the parser hands back unchanged (finding nameNotLowerToken)
+                name = rng.choice(['K', 'Charset', 'Name', 'kA', 'a*', 'k*1', 'k*0', 'a*b', 'a%b', 'k%41', "k'", "a'b", 'X-y', name.upper(), name + '*'])
+            if name.lower() in {n.lower() for n in params} and name not in params:
+                continue                 # (two names that differ in case only: kept out, the parser merges them)
             r = rng.random()
             if r < 0.08:
                 v = ''.join(rng.choice('ab' + LINEBREAKS) for _ in range(rng.randint(1, 4)))
@@ -594,6 +647,15 @@ class C16(Prop):
             b = list(s.encode(name))
             for chunks in self.compositions(b, False):
                 yield ['decode', True, 'opaque', chunks, some(cps(s)), name]
+        # the codecs whose incremental decoders are not lawful (as_text must not care)
+        for name, b in [('punycode', b'a-'), ('punycode', 'b\u00fccher'.encode('punycode')), ('utf-16', 'hi\U0001f600'.encode('utf-16-le')),
+                        ('utf-32', 'a\u20ac'.encode('utf-32-le')), ('utf-8-sig', b'\xef\xbb'), ('utf-8-sig', b'\xef\xbb\xbfa\xc3\xa9'), ('undefined', b'')]:
+            try:
+                whole = some(cps(b.decode(name)))
+            except UnicodeError:
+                whole = None
+            for chunks in self.compositions(list(b), True):
+                yield ['decode', True, 'opaque', chunks, whole, name]
         for n in range(0, 7):
             data = list(range(65, 65 + n))
             for size in range(1, 8):
@@ -644,6 +706,8 @@ class C16(Prop):
             return f
         if k == 'decode':
             f.append('decode:cs=' + (inp[2] if inp[2] != 'opaque' else 'opaque:' + inp[5]))
+            if inp[2] == 'opaque' and inp[5].lower().replace('_', '-') in UNLAWFUL + ['utf16', 'u32']:
+                f.append('decode:incremental-decoder-not-lawful')
             if inp[2] != 'opaque' and inp[5] not in ('x', 'none'):
                 f.append('decode:charset-alias-spelling')
             n = len(inp[3])
@@ -691,6 +755,8 @@ class C16(Prop):
                 f.append('ctype:encoded-word-start')
             if any(txt(k2) == 'charset' and ',' in txt(v) for k2, v in inp[3]):
                 f.append('ctype:charset-comma')
+            if any(any(c in "*%'" or c.isupper() for c in txt(k2)) for k2, _ in inp[3]):
+                f.append('ctype:name-not-lower-token')
             if any(ord(c) > 126 or ord(c) < 32 for v in vals for c in v):
                 f.append('ctype:non-printable-or-non-ascii')
             f.append('ctype:parsed=' + (trace[2][0] if isinstance(trace[2], list) else str(trace[2])))
